@@ -16,7 +16,9 @@ def emit(I, _evname, **args):
 
 
 def events_named(I, name):
-    return [e for e in I.trace if e.name == name]
+    """events of the current scope: the whole path for the function under proof, only the callee's emitted
+    events while a callee's postcondition is evaluated at a call site"""
+    return [e for e in I.cur_trace() if e.name == name]
 
 
 # ---------------------------------------------------------------- DelayManager (client view)
